@@ -1,9 +1,9 @@
 (* C02 -- source facts.  The machines and monitors this property rests on were written against, and validated on,
    these definitions of /repo; tools/srcfacts.py regenerates their normal-form digests on every run (coq/Gen/Src_*.v).
-   Statements only. *)
+   Statements only.  Written by `tools/srcfacts.py --props` from PROP_MODULES. *)
 From Coq Require Import List String.
-From ME Require Import Model.SrcExpected Gen.Src_common Gen.Src_map Gen.Src_flat_map Gen.Src_fbool Gen.Src_fzip Gen.Src_fbase Gen.Src_poll Gen.Src_throttle Gen.Src_retry Gen.Src_fmap Gen.Src_fcheck Gen.Src_timeout Gen.Src_fproxy Gen.Src_fnocancel Gen.Src_fapply Gen.Src_fsequence Gen.Src_ftimeout
-  Proofs.Src_ok_common Proofs.Src_ok_map Proofs.Src_ok_flat_map Proofs.Src_ok_fbool Proofs.Src_ok_fzip Proofs.Src_ok_fbase Proofs.Src_ok_poll Proofs.Src_ok_throttle Proofs.Src_ok_retry Proofs.Src_ok_fmap Proofs.Src_ok_fcheck Proofs.Src_ok_timeout Proofs.Src_ok_fproxy Proofs.Src_ok_fnocancel Proofs.Src_ok_fapply Proofs.Src_ok_fsequence Proofs.Src_ok_ftimeout.
+From ME Require Import Model.SrcExpected Gen.Src_common Gen.Src_map Gen.Src_flat_map Gen.Src_fbool Gen.Src_fzip Gen.Src_fbase Gen.Src_poll Gen.Src_throttle Gen.Src_retry Gen.Src_fmap Gen.Src_fcheck Gen.Src_timeout Gen.Src_fproxy Gen.Src_fnocancel Gen.Src_fapply Gen.Src_fsequence Gen.Src_ftimeout Gen.Src_futures_init Gen.Src_logwrap Gen.Src_metrics_null
+  Proofs.Src_ok_common Proofs.Src_ok_map Proofs.Src_ok_flat_map Proofs.Src_ok_fbool Proofs.Src_ok_fzip Proofs.Src_ok_fbase Proofs.Src_ok_poll Proofs.Src_ok_throttle Proofs.Src_ok_retry Proofs.Src_ok_fmap Proofs.Src_ok_fcheck Proofs.Src_ok_timeout Proofs.Src_ok_fproxy Proofs.Src_ok_fnocancel Proofs.Src_ok_fapply Proofs.Src_ok_fsequence Proofs.Src_ok_ftimeout Proofs.Src_ok_futures_init Proofs.Src_ok_logwrap Proofs.Src_ok_metrics_null.
 
 (* more_executors/_impl/common.py *)
 Theorem c02_source_common : Src_common.facts = expected_common.
@@ -56,6 +56,15 @@ Proof. exact src_fsequence_ok. Qed.
 (* more_executors/_impl/futures/timeout.py *)
 Theorem c02_source_ftimeout : Src_ftimeout.facts = expected_ftimeout.
 Proof. exact src_ftimeout_ok. Qed.
+(* more_executors/_impl/futures/__init__.py *)
+Theorem c02_source_futures_init : Src_futures_init.facts = expected_futures_init.
+Proof. exact src_futures_init_ok. Qed.
+(* more_executors/_impl/logwrap.py *)
+Theorem c02_source_logwrap : Src_logwrap.facts = expected_logwrap.
+Proof. exact src_logwrap_ok. Qed.
+(* more_executors/_impl/metrics/null.py *)
+Theorem c02_source_metrics_null : Src_metrics_null.facts = expected_metrics_null.
+Proof. exact src_metrics_null_ok. Qed.
 
 Print Assumptions c02_source_common.
 Print Assumptions c02_source_map.
@@ -74,3 +83,6 @@ Print Assumptions c02_source_fnocancel.
 Print Assumptions c02_source_fapply.
 Print Assumptions c02_source_fsequence.
 Print Assumptions c02_source_ftimeout.
+Print Assumptions c02_source_futures_init.
+Print Assumptions c02_source_logwrap.
+Print Assumptions c02_source_metrics_null.
